@@ -364,6 +364,23 @@ fn inner(lines: Vec<Vec<String>>, raw: String) -> Vec<String> {
                 };
                 r = r.which_scenario(custom);
             }
+            if kv(l, "retry_resolver").as_deref() == Some("resumed") {
+                // a custom resolver (public API): scenarios named `*_a` / `*_c` enter the run as "resumed" attempts - their
+                // retry options say current = 1 from the first execution on
+                r = r.retry_options(|_, _, s, _| {
+                    (s.name.ends_with("_a") || s.name.ends_with("_c")).then(|| runner::basic::RetryOptions {
+                        retries: event::Retries { current: 1, left: 1 },
+                        after: None,
+                    })
+                });
+            }
+            if kv(l, "which").as_deref() == Some("name_st") {
+                // a custom classifier that goes by the scenario name only (no tag anywhere in the feature): `s` and `t` are Serial
+                let custom: runner::basic::WhichScenarioFn = |_, _, s| {
+                    if s.name == "s" || s.name == "t" { runner::ScenarioType::Serial } else { runner::ScenarioType::Concurrent }
+                };
+                r = r.which_scenario(custom);
+            }
             if kv(l, "which").as_deref() == Some("name_serial") {
                 // a custom classifier that looks at what a scenario IS (its expanded name), not at its tags
                 let custom: runner::basic::WhichScenarioFn = |_, _, s| {
